@@ -1,8 +1,69 @@
 (* Properties/C15.v — pinned statements only. *)
-From Boreal Require Import Base.Prelude Base.Res Model.Eval Spec.CondSem Proofs.EvalProofs.
+From Boreal Require Import Base.Prelude Base.Res Model.Eval Spec.CondSem Model.EvalCost Model.Scanner
+     Proofs.InterruptProofs.
 
-Theorem C15_placeholder_undefined_rule_does_not_match :
-  forall en c, eval en None [] c = Undef -> eval_rule en c = Ok false.
-Proof. exact eval_rule_undef. Qed.
+(* A callback returning Abort at its k-th event: the scan returns CallbackAbort, exactly k events were
+   delivered and they are the first k events of the uninterrupted scan, in the same order; if the
+   uninterrupted scan delivers fewer than k events nothing changes.  Every configuration (no-scan pass,
+   full pass, include_not_matched, event masks), every rule set, input and k. *)
+Theorem C15_abort_prefix :
+  forall c k inp sc, 1 <= k ->
+    let oN := run_scan c Never inp sc in
+    let oA := run_scan c (AbortAt k) inp sc in
+    (oA = oN /\ nlen (o_events oN) < k)
+    \/ (o_err oA = Some EAbort /\ nlen (o_events oA) = k
+        /\ o_events oA = firstn (N.to_nat k) (o_events oN)).
+Proof. exact abort_prefix. Qed.
 
-Print Assumptions C15_placeholder_undefined_rule_does_not_match.
+(* The timeout firing at the j-th check, in configurations that always scan for strings: the scan
+   returns Timeout after exactly j checks and the events delivered are a prefix of the uninterrupted
+   ones; if the scan needs fewer than j checks nothing changes. *)
+Theorem C15_timeout_prefix :
+  forall c j inp sc, can_noscan c = false -> 1 <= j ->
+    let oN := run_scan c Never inp sc in
+    let oT := run_scan c (TimeoutAt j) inp sc in
+    (oT = oN /\ o_checks oN < j)
+    \/ (o_err oT = Some ETimeout /\ o_checks oT = j
+        /\ exists later, o_events oN = o_events oT ++ later).
+Proof. exact timeout_prefix_full. Qed.
+
+(* List API: the rules returned together with the Timeout error are a prefix of the rules of the complete
+   scan — in particular none is spurious — provided the timeout fires during the string scan or after the
+   global rules have all been evaluated. *)
+Theorem C15_timeout_rules_prefix :
+  forall c j inp sc, can_noscan c = false -> 1 <= j ->
+    (j <= i_ac_checks inp \/ nchecks (after_globals c inp sc) < j) ->
+    exists more, o_rules (run_scan c Never inp sc) = o_rules (run_scan c (TimeoutAt j) inp sc) ++ more.
+Proof. exact timeout_rules_prefix. Qed.
+
+(* ... and this proviso is needed on the current tree (recorded finding C15-timeout-unvalidated-globals,
+   pinned by the existing test limits::test_timeout_eval_rule): a timeout between two global rules
+   returns the first one as matched although the complete scan reports nothing. *)
+Theorem C15_timeout_in_globals_refuted :
+  o_rules (run_scan kf15_cfg Never kf15_inputs kf15_scanner) = []
+  /\ map er_id (filter er_matched (o_rules (run_scan kf15_cfg (TimeoutAt 2) kf15_inputs kf15_scanner))) = [0]
+  /\ ~ (2 <= i_ac_checks kf15_inputs \/ nchecks (after_globals kf15_cfg kf15_inputs kf15_scanner) < 2).
+Proof. exact timeout_in_globals_refuted. Qed.
+
+(* the simulation itself, for every procedure of the scan: until the interruption fires both runs are
+   in the same state; afterwards the uninterrupted run only appends events *)
+Theorem C15_simulation_full_scan :
+  forall c it inp sc, it <> Never -> Good it (full_scan c Never inp sc) (full_scan c it inp sc).
+Proof. exact (fun c it inp sc H => good_full_scan c it H inp sc). Qed.
+
+(* non-vacuity *)
+Example C15_example :
+  let r := {| r_ns := 0; r_id := 7; r_global := false; r_private := false; r_nvars := 0; r_cond := EBool true |} in
+  let sc := {| s_globals := []; s_rules := [r; r]; s_nns := 1 |} in
+  let c := {| c_full := true; c_nm := false; c_cb := true; c_ev_match := true; c_ev_nomatch := false;
+              c_direct := true; c_frag_noscan := false |} in
+  o_events (run_scan c Never kf15_inputs sc) = [EvMatch 7; EvMatch 7]
+  /\ o_events (run_scan c (AbortAt 1) kf15_inputs sc) = [EvMatch 7]
+  /\ o_err (run_scan c (TimeoutAt 2) kf15_inputs sc) = Some ETimeout.
+Proof. vm_compute. repeat split. Qed.
+
+Print Assumptions C15_abort_prefix.
+Print Assumptions C15_timeout_prefix.
+Print Assumptions C15_timeout_rules_prefix.
+Print Assumptions C15_timeout_in_globals_refuted.
+Print Assumptions C15_simulation_full_scan.
